@@ -328,6 +328,86 @@ def seeded_case(job, acc: Acc):
         acc.sample({"program": pname, "class": cls, "offending_lines": sorted(offending), "expected_message": msg_re})
 
 
+# ----------------------------------------------------------------- multi-file
+# The deferred-binding class is a relation between types that may live in different files: the chain
+# abstract base (deferred binding) <- abstract intermediates <- concrete type is spread over one file per type and
+# delivered in every order, at start-up (scripted enumeration order) and by opening the files one at a time.
+def chain_files(depth, implemented):
+    files = {"cf0_base.f90": (
+        "module cf0_mod\n  implicit none\n  type, abstract :: cf0_t\n  contains\n    procedure(cf_area_if), deferred :: area\n"
+        "  end type cf0_t\n  abstract interface\n    function cf_area_if(self) result(a)\n      import :: cf0_t\n"
+        "      class(cf0_t), intent(in) :: self\n      real :: a\n    end function cf_area_if\n  end interface\nend module cf0_mod\n")}
+    for i in range(1, depth - 1):
+        files[f"cf{i}_mid.f90"] = (f"module cf{i}_mod\n  use cf{i - 1}_mod\n  implicit none\n  type, abstract, extends(cf{i - 1}_t) :: cf{i}_t\n"
+                                   f"    real :: scale{i}\n  end type cf{i}_t\nend module cf{i}_mod\n")
+    k = depth - 1
+    body = [f"module cf{k}_mod", f"  use cf{k - 1}_mod", "  implicit none", f"  type, extends(cf{k - 1}_t) :: cf{k}_t", "    real :: r"]
+    if implemented:
+        body += ["  contains", "    procedure :: area => cf_leaf_area"]
+    end_line = len(body)
+    body += [f"  end type cf{k}_t"]
+    if implemented:
+        body += ["contains", "  function cf_leaf_area(self) result(a)", f"    class(cf{k}_t), intent(in) :: self", "    real :: a", "    a = self%r",
+                 "  end function cf_leaf_area"]
+    body += [f"end module cf{k}_mod"]
+    leaf = f"cf{k}_leaf.f90"
+    files[leaf] = "\n".join(body) + "\n"
+    return files, leaf, end_line
+
+
+def chain_jobs(max_depth):
+    import itertools
+
+    for depth in range(2, max_depth + 1):
+        names = sorted(chain_files(depth, True)[0])
+        for order in itertools.permutations(names):
+            for implemented in (False, True):
+                for mode in ("cold", "open"):
+                    yield (depth, order, implemented, mode)
+
+
+def chain_case(job, acc: Acc):
+    depth, order, implemented, mode = job
+    files, leaf, end_line = chain_files(depth, implemented)
+    sc = worker_scratch("c07")
+    sc.wipe()
+    root = os.path.realpath(os.path.join(sc.path, "w"))
+    os.makedirs(root)
+    s = Server([])
+    if mode == "cold":
+        for n, t in files.items():
+            with open(os.path.join(root, n), "w") as f:
+                f.write(t)
+        real = s.srv._get_source_files
+        rank = {n: i for i, n in enumerate(order)}
+        s.srv._get_source_files = lambda: sorted(real(), key=lambda q: rank[os.path.basename(q)])
+        s.initialize(root)
+    else:
+        s.initialize(root)
+        for n in order:
+            with open(os.path.join(root, n), "w") as f:
+                f.write(files[n])
+            s.open(os.path.join(root, n), files[n])
+    d = {}
+    for n in order:
+        for o in s.save(os.path.join(root, n)):
+            if o.get("method") == "textDocument/publishDiagnostics":
+                d[n] = [(x["range"]["start"]["line"], x.get("severity"), x["message"]) for x in o["params"]["diagnostics"]]
+    errs = [(n, *x) for n, ds in d.items() for x in ds if x[1] == 1]
+    want = [] if implemented else [(leaf, end_line, 1, 'Deferred procedure "area" not implemented')]
+    acc.case(nontrivial_key=job, outcome=(depth, implemented, len(errs)))
+    case = {"depth": depth, "order": list(order), "implemented": implemented, "mode": mode, "files": files}
+    tags = {"family": "multifile", "class": "deferred_not_implemented", "depth": depth, "mode": mode,
+            "leaf_first": order.index(leaf) < order.index("cf0_base.f90")}
+    if sorted(errs) != sorted(want):
+        obs = "error_on_valid_program" if implemented else ("not_reported" if not errs else "wrong_or_unrelated")
+        acc.violation(Violation("multifile", {**tags, "obs": obs}, case, want, errs,
+                                what=f"EXTENDS chain of {depth} over files {list(order)} ({mode}), binding "
+                                     f"{'implemented' if implemented else 'missing'}: expected errors {want}, got {errs}"))
+    if len(acc.samples) < 1 and not implemented and depth == 3:
+        acc.sample({"depth": depth, "order": list(order), "mode": mode, "leaf": files[leaf], "expected": want})
+
+
 def main(ctx):
     ctx.rule = ("valid: 6 canonical programs + 6 programs using the bundled intrinsic modules + every generated structure tree of C04 up "
                 "to a node budget must publish no error-severity diagnostic; seeded: for every canonical program and every small "
@@ -355,6 +435,10 @@ def main(ctx):
             per_class[sd[0].split(":")[0]] = per_class.get(sd[0].split(":")[0], 0) + 1
     sacc = core.pmap(seeded_case, jobs, chunk=8, budget_s=120, label="C07/seeded")
     ctx.add_family("seeded", sacc, seeds_per_class=per_class)
+    cj = list(chain_jobs(3 if ctx.quick else 4))
+    cacc = core.pmap(chain_case, cj, chunk=4, budget_s=120, label="C07/multifile")
+    ctx.add_family("multifile", cacc, what="deferred binding over an EXTENDS chain of 2..%d types, one file per type, every file order, "
+                   "at start-up and opened one by one, binding implemented / missing" % (3 if ctx.quick else 4))
     missing = [c for c in CLASS_MESSAGES if c.split(":")[0] not in per_class and c not in ("procedure_in_type", "procedure_in_block")]
     if missing:
         raise core.HarnessError(f"no seeding position for classes {missing}")
@@ -363,7 +447,9 @@ def main(ctx):
 def replay(rec):
     c = rec["case"]
     acc = Acc()
-    if rec["family"] == "valid":
+    if rec["family"] == "multifile":
+        chain_case((c["depth"], tuple(c["order"]), c["implemented"], c["mode"]), acc)
+    elif rec["family"] == "valid":
         valid_case((c["program"], c["text"]), acc)
     else:
         seeded_case((c["program"], c["seed_index"]), acc)
